@@ -64,7 +64,8 @@ def parse_sgrid(ds):
 
     sgrid_ax_names = sgrid.get_all_axes(ds)
     parsed_coords = {}
-    for ax_name in sgrid_ax_names:
+    # the axis names come as a set: fix their order (X, Y, Z) so that it does not vary between runs
+    for ax_name in sorted(sgrid_ax_names):
         parsed_coords[ax_name] = sgrid.get_axis_positions_and_coords(ds, ax_name)
 
     sgrid_grid_kwargs = {"coords": parsed_coords}
@@ -90,7 +91,13 @@ def parse_comodo(ds):
 
     comodo_ax_names = comodo.get_all_axes(ds)
     parsed_coords = {}
-    for ax_name in comodo_ax_names:
+    # the axis names come as a set: take them in the order their dimensions appear in the dataset
+    ordered_ax_names = [
+        ax_name
+        for ax_name in dict.fromkeys(ds[d].attrs.get("axis") for d in ds.dims)
+        if ax_name in comodo_ax_names
+    ]
+    for ax_name in ordered_ax_names:
         parsed_coords[ax_name] = comodo.get_axis_positions_and_coords(ds, ax_name)
 
     comodo_grid_kwargs = {"coords": parsed_coords}
